@@ -95,6 +95,8 @@ def as_sstr(I, v):
         return v
     if isinstance(v, SString):
         return SStr(v.b, v.alloc, 0)
+    if isinstance(v, Enum) and v.name == 'Cow' and len(v.f) == 1:
+        return as_sstr(I, v.f[0])            # Cow<str>: Borrowed(&str) / Owned(String) deref to the text
     if isinstance(v, Opaque) and v.tag in ('formatted', 'fmtargs'):
         # text produced by format!: opaque (no property depends on message text); a fixed
         # placeholder that equals no ordinary string
